@@ -22,7 +22,9 @@
    The network client's handshake is proved in the system model too (System/Handshake.v): a
    client that connects to a server with one driver and asks for the properties ends with the
    library's policies on its two connections, nothing in flight, and a mirror in sync; and so
-   does every later history of operations (connected_client_history_on_both_connections).
+   does every later history of operations (connected_client_history_on_both_connections; and
+   every_typed_history_keeps_the_connected_client_in_sync, where the condition on the order of messages
+   is itself proved of every operation: System/Orderly.v, every_operation_is_orderly).
    PARTIAL: the system model settles after every operation; operations that overlap in time with
    the delivery of earlier ones, and several drivers / several clients at once, are validated by
    the system-level correspondence (schedules family), not proved.  That the system model is the
@@ -31,7 +33,7 @@
    payload (known finding K2). *)
 From Coq Require Import List NArith Bool String.
 Import ListNotations.
-From Indi Require Import Base.Sx Msg.Equality Driver.Model Driver.Props Client.Model Client.Props Client.Update Client.Norm System.Model System.Converge System.Ops System.Deliver System.Handshake System.Reorder.
+From Indi Require Import Base.Sx Msg.Equality Driver.Model Driver.Props Client.Model Client.Props Client.Update Client.Norm System.Model System.Converge System.Ops System.Deliver System.Handshake System.Reorder System.Orderly.
 
 Theorem a_definition_brings_the_entry_in_sync mi d g v :
   vec_on g v = true ->
@@ -232,3 +234,28 @@ Theorem connected_client_history_on_both_connections ops s c e d :
     cl_in_ctl c' = [] /\ cl_in_blob c' = [].
 Proof. exact (network_client_history_two_connections ops s c e d). Qed.
 Print Assumptions connected_client_history_on_both_connections.
+
+(* the condition of the two-connection theorem holds of EVERY operation of the property's list, on every
+   device definition with unique property names: what a driver publishes is either a definition (never a
+   BLOB update) or an update (a BLOB update exactly for BLOB properties); an operation on one property
+   publishes updates only, or the definition first and updates after it; enabling a group and answering
+   getProperties go through properties of different names *)
+Theorem every_operation_is_orderly d o :
+  dev_ok d -> op_typed d o -> blob_updates_last (d_name d) (pubs (snd (step d o))).
+Proof. exact (step_orderly d o). Qed.
+Print Assumptions every_operation_is_orderly.
+
+(* so: the composed system model, ANY history of typed operations - BLOB publications included -, one
+   connected network client in sync at the start (the handshake theorem establishes that): in sync at the end,
+   nothing in flight *)
+Theorem every_typed_history_keeps_the_connected_client_in_sync ops s c e d :
+  one_client s c (d_name d) -> cl_in_ctl c = [] -> cl_in_blob c = [] ->
+  find_dev s e = Some d -> e <> cl_ctl c -> e <> cl_blob c ->
+  dev_ok d -> net_synced (cl_mirror c) d -> ops_typed d ops ->
+  exists c',
+    sy_cls (fold_left (fun s o => sstep s (SDrv e o)) ops s) = [c'] /\
+    net_synced (cl_mirror c') (fst (run d ops)) /\
+    find_dev (fold_left (fun s o => sstep s (SDrv e o)) ops s) e = Some (fst (run d ops)) /\
+    cl_in_ctl c' = [] /\ cl_in_blob c' = [].
+Proof. exact (network_client_history_typed ops s c e d). Qed.
+Print Assumptions every_typed_history_keeps_the_connected_client_in_sync.
